@@ -211,7 +211,8 @@ pub fn record(seed: u64, n: usize, mode: &str, out_path: &str) {
                 let f1 = engine.synthesize(&lines[..]).map(|w| w.len() / engine.condition.get_fperiod()).unwrap_or(0);
                 let nst = lines.len() * engine.voices.global_metadata().num_states;
                 for _ in 0..4 {
-                    let milli = *rng.pick(&[400i64, 800, 1200, 1600, 300, 700, 1100, 2500, 3300]);
+                    // very slow rates stretch single (pause) states to many hundreds of frames
+                    let milli = *rng.pick(&[400i64, 800, 1200, 1600, 300, 700, 1100, 2500, 3300, 50, 100, 150, 200, 9000]);
                     let sp = milli as f64 / 1000.0;
                     engine.condition.set_speed(sp);
                     let exact = engine.condition.get_speed() == sp;
